@@ -400,7 +400,7 @@ struct TextFamily {
 }
 impl TextFamily {
     fn new(d: &Data) -> TextFamily {
-        let (max_bytes, max_tokens) = if d.thorough { (25_000usize, 1500usize) } else { (700usize, 400usize) };
+        let (max_bytes, max_tokens) = if d.thorough { (25_000usize, 1500usize) } else { (1500usize, 400usize) };
         let mut files = vec![];
         let mut starts = vec![0u64];
         for (i, (_, t)) in d.pls.iter().enumerate() {
@@ -649,7 +649,7 @@ impl Families {
         for (_, b) in &d.tfms {
             trunc_starts.push(trunc_starts.last().unwrap() + b.len() as u64 + 1);
         }
-        let (n_small, max_len) = if d.thorough { (usize::MAX, 2600usize) } else { (40usize, 200usize) };
+        let (n_small, max_len) = if d.thorough { (usize::MAX, 2600usize) } else { (60usize, 420usize) };
         let mut mut_files = vec![];
         let mut mut_starts = vec![0u64];
         // fonts whose property list is huge (originals/many-entrypoints.tfm: 2 kB of TFM, 750 kB of PL)
@@ -668,8 +668,8 @@ impl Families {
             Fam { name: "tfm-header-words", bounds: format!("each of the twelve 16-bit words of the size table set to every value 0..65535, against {} base files ({})", self.hdr_bases.len(), if d.thorough { "every corpus font, synthetic minimal files, cmr10 truncated to 8/16/24/28 bytes" } else { "cmr10, cmex10, empty, many-ligatures, 5 synthetic minimal files, cmr10 truncated to 8/16/24/28 bytes" }), n: self.hdr_bases.len() as u64 * 12 * 65536 },
             Fam { name: "tfm-size-table-pairs", bounds: format!("every pair of byte positions inside the 24-byte size table set jointly to every pair of values, on {} synthetic minimal file(s)", self.pair_bases.len()), n: self.pair_bases.len() as u64 * 276 * 65536 },
             Fam { name: "tfm-truncations", bounds: format!("every truncation length of every corpus font ({} files)", d.tfms.len()), n: *self.trunc_starts.last().unwrap() },
-            Fam { name: "tfm-byte-mutations", bounds: format!("every 1-byte mutation (256 values) of every byte of the size table, header, char_info, dimension and lig/kern region of the {} smallest corpus fonts of 24..{} bytes (whose property list is at most 60 kB)", self.mut_files.len(), if d.thorough { 2600 } else { 200 }), n: *self.mut_starts.last().unwrap() },
-            Fam { name: "pl-token-faults", bounds: format!("every token of {} corpus property lists (files up to {} bytes, first {} tokens): deleted, duplicated, file truncated there, a parenthesis inserted, replaced by each of {} menu items (numbers 0 255 256 2047 2048 -1 77777777777, fix_word boundaries, prefixes, keywords, parentheses), numbers replaced by the character code below the first / above the last CHARACTER, property names replaced by each of {} other property names", self.text.files.len(), if d.thorough { 25000 } else { 700 }, if d.thorough { 1500 } else { 400 }, REPL.len(), PROPS.len()), n: self.text.len() },
+            Fam { name: "tfm-byte-mutations", bounds: format!("every 1-byte mutation (256 values) of every byte of the size table, header, char_info, dimension and lig/kern region of the {} smallest corpus fonts of 24..{} bytes (whose property list is at most 60 kB)", self.mut_files.len(), if d.thorough { 2600 } else { 420 }), n: *self.mut_starts.last().unwrap() },
+            Fam { name: "pl-token-faults", bounds: format!("every token of {} corpus property lists (files up to {} bytes, first {} tokens): deleted, duplicated, file truncated there, a parenthesis inserted, replaced by each of {} menu items (numbers 0 255 256 2047 2048 -1 77777777777, fix_word boundaries, prefixes, keywords, parentheses), numbers replaced by the character code below the first / above the last CHARACTER, property names replaced by each of {} other property names", self.text.files.len(), if d.thorough { 25000 } else { 1500 }, if d.thorough { 1500 } else { 400 }, REPL.len(), PROPS.len()), n: self.text.len() },
             Fam { name: "pl-templates", bounds: format!("{} property list templates with every combination of hole values from lattices of {} fix_word texts, {} character code forms and {} integers (boundaries of every documented range)", TEMPLATES.len(), FIX.len(), CODES.len(), INTS.len()), n: *template_sizes().last().unwrap() },
             Fam { name: "pl-short-texts", bounds: format!("every text of <= {} tokens over a {}-token vocabulary (parentheses, property names, prefixes, numbers)", self.vocab_len, VOCAB.len()), n: vcore::strings_upto(VOCAB.len() as u64, self.vocab_len) },
             Fam { name: "pl-many-entrypoints", bounds: format!("{} property lists: 254/255/256 characters each labelling its own one-instruction chain, behind 0/1/2/3/254/255/256/300 unlabelled instructions, with and without a boundary label (up to 257 entry points in need of a restart word)", self.many.len()), n: self.many.len() as u64 },
